@@ -169,4 +169,115 @@ pub fn run(ctx: &mut Ctx) {
             }
         }
     }
+
+    // ---- every kind of participant holds completion() back while it is alive, and lets go when it ends ----
+    {
+        use trusttunnel::settings::*;
+        use trusttunnel::verif::{vlive, vservice};
+        let kinds: [(&str, bool); 9] = [
+            ("tunnel", false),
+            ("tunnel", true),
+            ("ping", false),
+            ("ping", true),
+            ("speedtest", false),
+            ("speedtest", true),
+            ("reverse_proxy", false),
+            ("metrics", false),
+            ("none", false),
+        ];
+        for (kind, h2) in kinds {
+            let shutdown = Shutdown::new();
+            let maddr = std::net::TcpListener::bind("127.0.0.1:0").map(|l| l.local_addr().unwrap()).ok();
+            let mut b = Settings::builder()
+                .listen_address(("127.0.0.1", 1))
+                .unwrap()
+                .listen_protocols(ListenProtocolSettings {
+                    http1: Some(Http1Settings::builder().build()),
+                    http2: Some(Http2Settings::builder().build()),
+                    quic: None,
+                })
+                .speedtest_enable(true)
+                .reverse_proxy(ReverseProxySettings::builder().server_address("127.0.0.1:9").unwrap().path_mask("/rp".to_string()).build().unwrap());
+            if let Some(a) = maddr {
+                b = b.metrics(MetricsSettings::builder().listen_address(a).unwrap().request_timeout(std::time::Duration::from_secs(3)).build().unwrap());
+            }
+            let hosts = TlsHostsSettings::builder()
+                .main_hosts(vec![TlsHostInfo { hostname: "localhost".into(), cert_chain_path: FIXTURE_PEM.into(), private_key_path: FIXTURE_PEM.into(), allowed_sni: vec![] }])
+                .build()
+                .unwrap();
+            let core = trusttunnel::core::Core::new(b.build().unwrap(), None, hosts, shutdown.clone()).unwrap();
+            let label = format!("{}{}", kind, if kind == "metrics" || kind == "none" { "" } else if h2 { "/h2" } else { "/h1" });
+            let rt = tokio::runtime::Builder::new_current_thread().enable_all().start_paused(true).build().unwrap();
+            let verdict: Result<(), String> = rt.block_on(async {
+                use std::time::Duration;
+                // the participant: a task and the client's end that keeps it alive
+                let mut keep_h1 = None;
+                let mut keep_h2 = None;
+                let mut keep_svc = None;
+                let task: Option<tokio::task::JoinHandle<()>> = match kind {
+                    "tunnel" if h2 => {
+                        keep_h2 = vlive::open_h2(&core, "localhost").await;
+                        None
+                    }
+                    "tunnel" => {
+                        keep_h1 = Some(vlive::open_h1(&core, "localhost"));
+                        None
+                    }
+                    "metrics" => Some(vservice::spawn_metrics(&core)),
+                    "none" => None,
+                    k => match vservice::spawn(&core, k, h2) {
+                        Some(s) => {
+                            keep_svc = Some(s.client);
+                            Some(s.task)
+                        }
+                        None => return Err("could not start the session".to_string()),
+                    },
+                };
+                tokio::time::sleep(Duration::from_millis(1_000)).await;
+                let alive = |t: &Option<tokio::task::JoinHandle<()>>, a: &Option<vlive::H1Session>, b: &Option<vlive::H2Session>| -> bool {
+                    t.as_ref().map(|x| !x.is_finished()).unwrap_or(false)
+                        || a.as_ref().map(|x| !x.server_ended()).unwrap_or(false)
+                        || b.as_ref().map(|x| !x.server_ended()).unwrap_or(false)
+                };
+                if kind != "none" && !alive(&task, &keep_h1, &keep_h2) {
+                    return Err("the session ended by itself before any shutdown".to_string());
+                }
+                let sd = shutdown.clone();
+                let early = tokio::time::timeout(Duration::from_millis(1_000), async move {
+                    #[allow(clippy::await_holding_lock)]
+                    sd.lock().unwrap().completion().await
+                })
+                .await;
+                match (kind, early.is_ok()) {
+                    ("none", false) => return Err("completion() pending although nothing is registered".to_string()),
+                    ("none", true) => return Ok(()),
+                    (_, true) => return Err("completion() returned while the participant was alive and had not finished".to_string()),
+                    _ => {}
+                }
+                shutdown.lock().unwrap().submit();
+                let t0 = tokio::time::Instant::now();
+                while alive(&task, &keep_h1, &keep_h2) {
+                    tokio::time::sleep(Duration::from_millis(100)).await;
+                    if t0.elapsed() > Duration::from_secs(100) {
+                        return Err("the participant did not wind down within 100 s of the shutdown submission".to_string());
+                    }
+                }
+                let sd = shutdown.clone();
+                let done = tokio::time::timeout(Duration::from_millis(10_000), async move {
+                    #[allow(clippy::await_holding_lock)]
+                    sd.lock().unwrap().completion().await
+                })
+                .await;
+                drop((keep_h1, keep_h2, keep_svc));
+                if done.is_err() {
+                    return Err("completion() still pending 10 s after the participant ended".to_string());
+                }
+                Ok(())
+            });
+            match verdict {
+                Ok(()) => ctx.stat(&format!("participant_{}", label.replace('/', "_"))),
+                Err(e) => ctx.oracle_failure("graceful_shutdown", &format!("participant {}: {}", label, e)),
+            }
+        }
+    }
 }
